@@ -87,8 +87,12 @@ int BackendApp::Run(char **argv) {
     // For mp::Error, which can be thrown by Abort() or MP_RAISE,
     // we try to print the result into .sol file,
     // if the solution handler is available.
+    // Errors raised without a solve_result code (read errors, unsupported
+    // items, option errors) carry Error's default exit code EXIT_FAILURE,
+    // which is not a solve_result: report those as sol::FAILURE.
     GetBackend().ReportError(
-          er.exit_code()>=0 ? er.exit_code() : sol::FAILURE,
+          (er.exit_code()>=0 && er.exit_code()!=EXIT_FAILURE)
+            ? er.exit_code() : sol::FAILURE,
           std::string(GetBackend().long_name()) + ":  "
           + er.what());
   } catch (const std::exception& ex) {
